@@ -19,3 +19,44 @@ def disjoint(rng):
 
 def one_sided_filtered(rng):
     return EC.gen_one_sided(rng, [f for f in E.ALL_FLAVOURS if f.filt])
+
+
+def conflicts(rng):
+    """C01/C02/C05 family: same-file edit/edit and same-path create/create between drains (default
+    resolver), mixed with non-conflicting fresh-path operations; both sides id-stable."""
+    cands = [f for f in CLEAN_FLAVOURS if not f.oip[0] and not f.oip[1]]
+    fl = rng.choice(cands)
+    g = EC.Gen(rng, fl, [0, 1], 0)
+    g.allow_empty = False       # contents are unique tokens, so survival of a version is decidable
+    g.make_base(rng.randint(1, 5))
+    g.sched.append(["drain"])
+    for _ in range(rng.randint(1, 4)):
+        r = rng.random()
+        files = g.files()
+        if r < 0.45 and files:
+            rel = rng.choice(files)                      # edit / edit
+            first = rng.choice([0, 1])
+            same = rng.random() < 0.15
+            c1 = g.content()
+            c2 = c1 if same else g.content()
+            g.sched.append(["user", first, ["write", g.abs(first, rel), c1]])
+            g.engine_noise(0.4)
+            g.sched.append(["user", 1 - first, ["write", g.abs(1 - first, rel), c2]])
+        elif r < 0.8:
+            d = rng.choice(g.dirs())                     # create / create at the same fresh path
+            rel = d + "/" + g.fresh("F")
+            first = rng.choice([0, 1])
+            same = rng.random() < 0.2
+            c1 = g.content()
+            c2 = c1 if same else g.content()
+            g.tree[rel] = "F"
+            g.sched.append(["user", first, ["create", g.abs(first, rel), c1]])
+            g.engine_noise(0.4)
+            g.sched.append(["user", 1 - first, ["create", g.abs(1 - first, rel), c2]])
+        else:
+            side = rng.choice([0, 1])                    # an unrelated fresh creation
+            g.one_op_simple(side)
+        g.engine_noise(0.5)
+        g.sched.append(["drain"])
+    return dict(flavour=fl.key(), base=g.base, schedule=g.sched, hash_mult=rng.choice([1, 3, 7, 11, 2654435761]),
+                mode=dict(origin=None, check_spec=False, no_conflicted=False, cov_every_step=True))
